@@ -436,7 +436,7 @@ def hedge_closed(p):
     which = p["which"]
     got, Q1, n = _hedge_value(p, which)
     c, s = math.cos(math.pi / 8) ** 2, math.sin(math.pi / 8) ** 2
-    exp = {("max", 1): c, ("max", 2): c * c, ("min", 1): s, ("min", 2): 0.0}[(which.split("_")[0], n)]
+    exp = {("max", 1): c, ("max", 2): c * c, ("max", 3): c**3, ("min", 1): s, ("min", 2): 0.0, ("min", 3): 0.0}[(which.split("_")[0], n)]
     if abs(got - exp) > TOL_SDP:
         raise Violation("%s on the Molina-Watrous operator Q0, n=%d: %.6f, closed form %.6f" % (_HEDGE_METHODS[which][0], n, got, exp))
 
@@ -663,9 +663,12 @@ def cases(tier, seed):
                 add("hedge.max_ge_min", dict(par, form=form), "hedge/molina-watrous/n=%d" % n)
         for form in ("primal", "dual"):
             add("hedge.reps2", dict(name=name, form=form), "hedge/molina-watrous/reps-%s" % form)
-    for n in (1, 2):
+    for n in (1, 2, 3):  # n = 3 is the first number of repetitions at which the interleaving permutation of the dual differs from its inverse
         for which in _HEDGE_METHODS:
             add("hedge.closed", dict(name="mw-q0", n=n, which=which), "hedge/molina-watrous/n=%d" % n)
+    for name in ("mw-q0", "mw-q1"):
+        add("hedge.max.pd", dict(name=name, n=3), "hedge/molina-watrous/n=3")
+        add("hedge.min.pd", dict(name=name, n=3), "hedge/molina-watrous/n=3")
     nq = 40 if thorough else 5
     for cplx in (False, True):
         fld = "complex" if cplx else "real"
